@@ -826,6 +826,26 @@ def r13(F, R):
         R.bad("C13-R13", "positive-control", "fixtures/positive", "matcher misses planted string operations: found %s" % sorted(ph))
 
 
+
+def _carries_divergence(F, b, rv):
+    """Is the payload of this `Err(..)` a variant of a workspace enum whose field is the DivergenceInfo itself (a tree-building outcome, not an error)?"""
+    ops = rv.get("ops") or []
+    if not ops:
+        return False
+    pl = ops[0].get("pl")
+    if not pl or pl["p"]:
+        return False
+    for blk in b.blocks:
+        for st in blk["stmts"]:
+            if st["k"] == "assign" and st["pl"]["l"] == pl["l"] and not st["pl"]["p"] and st["rv"]["k"] == "agg" and st["rv"].get("ak") == "adt":
+                a = F.adts.get(st["rv"].get("adt")) or F.adts.get(strip_generics(st["rv"].get("adt") or ""))
+                if not a:
+                    continue
+                for v in a.get("variants") or []:
+                    if v.get("name") == st["rv"].get("variant") and any("DivergenceInfo" in str(f.get("ty")) for f in v.get("fields") or []):
+                        return True
+    return False
+
 def r14(F, R, rid="C13-R14"):
     R.rule(rid, "a divergence is not an error: wherever a LeapfrogResult is matched (tree extension, MCLMC kernel, step-size search), no `Err(..)` of the function's "
                 "own making is reachable from the Divergence arm before the next leapfrog - a divergence, including one caused by a recoverable density error, "
@@ -843,6 +863,8 @@ def r14(F, R, rid="C13-R14"):
                 continue
             for st in blk["stmts"]:
                 if st["k"] == "assign" and st["pl"]["l"] == 0 and not st["pl"]["p"] and st["rv"]["k"] == "agg" and st["rv"].get("variant") == "Err":
+                    if _carries_divergence(F, b, st["rv"]):
+                        continue        # `Err(Outcome::Diverging(info))` of an internal outcome type hands the divergence on, it is not a failure
                     own_errs.add(bi)
         for (bi, t) in sws:
             tgt = [a["target"] for a in t["arms"] if a.get("name") == "Divergence"][0]
